@@ -30,7 +30,6 @@ import engine_run as er
 
 BASE_CORPUS = False          # the shared systematic corpus is sampled below (extra_grams) to fit the time budget
 MAXLEN = {"quick": 4, "thorough": 5}
-KNOWN_SIGS = {}
 
 EOL_CH = {"lf": 10, "cr": 13, "crlf": 10, "lf_crlf": 10, "cr_crlf": 13}
 
@@ -139,8 +138,44 @@ def reach(K, root):
 LIMIT_MSGS = ("maximum parser rule nesting depth exceeded", "maximum allowed rule consumption reached", "maximum allowed rule consumption exceeded")
 
 
-# --------------------------------------------------------------------------- oracle
+# --------------------------------------------------------------------------- known finding: lazy tracking inside rematch
+KNOWN_SIGS = {"KNOWN:lazy-rematch-position": "rematch under tracking_mode::lazy reports positions relative to the rematched span"}
+
+
+def _lazy_rematch(K, rec):
+    """internal/rematch.hpp builds its inner memory_input from m.inputerator(); with tracking_mode::lazy that is a bare
+    const char*, so the inner input counts byte/line/column from the START OF THE REMATCHED SPAN: a parse_error raised
+    inside rematch< Head, Rules... > (and every position seen by controls/actions there) is relative, not absolute."""
+    e = rec["cfg"].split(".")[4]
+    return e.startswith("lazy-") and any(K.table[x]["head"][0] == "rematch" and len(K.table[x]["subs"]) > 1 for x in reach(K, rec["root"]))
+
+
+_POS = __import__("re").compile(r"\d+,\d+,\d+")
+
+
+def projection(rec, K, model):
+    import engine_props as ep
+    s = ep.projection(rec, "C05", K=K, model=model)
+    if _lazy_rematch(K, rec):
+        # the shared driver computes lazy positions as absolute ones; positions of this class are judged by the oracle
+        # (known finding), identity / chain structure / events are still compared
+        res, cur, evs = (s.split("|") + ["", ""])[:3]
+        res = __import__("re").sub(r":\d+,\d+,\d+", ":*", res)
+        evs = __import__("re").sub(r",\d+,\d+,\d+;", ",*;", evs + (";" if evs and not evs.endswith(";") else ""))
+        s = res + "|*|" + evs
+    return s
+
+
 def oracle(K, rec, counters):
+    out = _oracle(K, rec, counters)
+    if out and _lazy_rematch(K, rec):
+        counters["known_lazy_rematch_cases"] += 1
+        return ["KNOWN:lazy-rematch-position|" + out[0]]
+    return out
+
+
+# --------------------------------------------------------------------------- oracle
+def _oracle(K, rec, counters):
     out = []
     fam, ctl, A, M, eol, lazy, init = cfg_parts(rec)
     data = bytes.fromhex(rec["input"]) if rec["input"] != "-" else b""
@@ -483,7 +518,7 @@ def extra_grams(tier, seed, start_gid):
         return "other"
     sel = []
     cnt = {"catch": 0, "raise": 0, "rbasis": 0, "other": 0}
-    step = {"quick": {"catch": 2, "raise": 3, "rbasis": 4, "other": 12}, "thorough": {"catch": 2, "raise": 6, "rbasis": 6, "other": 48}}[tier if tier in ("quick", "thorough") else "quick"]
+    step = {"quick": {"catch": 2, "raise": 3, "rbasis": 4, "other": 12}, "thorough": {"catch": 2, "raise": 8, "rbasis": 8, "other": 64}}[tier if tier in ("quick", "thorough") else "quick"]
     for g in base:
         c = cls(g)
         cnt[c] += 1
@@ -518,7 +553,7 @@ def choose_cfgs(g, k, tier):
     if "c05:pos" in g.tags:
         return POS_CFGS if tier == "thorough" else POS_CFGS[:4] + [POS_CFGS[4 + k % 2]]
     if tier == "thorough":
-        idx = [0, 1, 2, 3 + k % 2, 5 + k % 2, 7 + k % 3]
+        idx = [0, 1, 2, 3 + k % 2, 5 + k % 5]
     else:
         idx = [0, 1 + k % 2, [3, 4, 5, 6, 7, 8, 9][k % 7]]
         if "c05" in g.tags or "catch" in g.tags:
